@@ -23,3 +23,9 @@ func VerifEventToMessage(fields []sdk.Val, txId string, header *sdk.BlockHeaderE
 func VerifParseAttestToken(payload []byte) (*TokenInfo, error) {
 	return parseAttestToken(payload)
 }
+
+// VerifBlockPollerEnabled reports whether the height poller is switched on (the watcher enables
+// it while it holds unconfirmed events). Read-only; used by the monitors to detect quiescence.
+func (w *Watcher) VerifBlockPollerEnabled() bool {
+	return w.blockPollerEnabled.Load()
+}
